@@ -73,6 +73,7 @@ type Fidelity struct {
 	BaseURL                bool
 	Twice                  bool // send the same configuration twice: the parsed request must be identical
 	DisablePathNormalizing bool `json:",omitempty"`
+	URLQuery               []KV `json:",omitempty"` // query components written into the URL itself (values may contain the characters a query may carry unescaped: ? / : @)
 }
 
 type seenReq struct {
@@ -267,6 +268,13 @@ func checkFidelity(c Fidelity) vk.Verdict {
 		if c.Ext {
 			url += ":ext"
 		}
+		for i, kv := range c.URLQuery {
+			sep := "&"
+			if i == 0 {
+				sep = "?"
+			}
+			url += sep + kv.K + "=" + kv.V
+		}
 		resp, err := r.Custom(url, c.Method)
 		if err != nil {
 			return seenReq{}, err.Error()
@@ -304,7 +312,7 @@ func checkFidelity(c Fidelity) vk.Verdict {
 	if c.RRef != "" {
 		w.Referer = c.RRef
 	}
-	for _, kv := range append(fold(c.CQuery), fold(c.RQuery)...) {
+	for _, kv := range append(append(fold(c.CQuery), fold(c.RQuery)...), c.URLQuery...) {
 		w.Query = append(w.Query, kv.K+"="+kv.V)
 	}
 	for _, kv := range append(fold(c.CHeader), fold(c.RHeader)...) {
@@ -462,6 +470,13 @@ func genFidelity(t *rapid.T) Fidelity {
 		CHeader: withOps(t, "ch", kvs(t, "ch", hval, keys), false), RHeader: withOps(t, "rh", kvs(t, "rh", hval, keys), false),
 		CCookie: uniqKeys(kvs(t, "cc", cval, keys)), RCookie: uniqKeys(kvs(t, "rc", cval, keys)),
 		Method: rapid.SampledFrom([]string{"POST", "PUT", "PATCH"}).Draw(t, "method"), BaseURL: rapid.Bool().Draw(t, "base"), Twice: rapid.IntRange(0, 3).Draw(t, "twice") == 0}
+	if rapid.IntRange(0, 3).Draw(t, "urlquery") == 0 {
+		uq := rapid.StringMatching(`[a-z0-9?/:@]{0,6}`)
+		n := rapid.IntRange(1, 2).Draw(t, "nuq")
+		for i := 0; i < n; i++ {
+			c.URLQuery = append(c.URLQuery, KV{K: fmt.Sprintf("u%d", i), V: uq.Draw(t, "uqv")})
+		}
+	}
 	if rapid.Bool().Draw(t, "cua") {
 		c.CUA = "cua-" + cval.Draw(t, "cuav")
 	}
@@ -614,8 +629,8 @@ func checkJar(c JarCase) vk.Verdict {
 			app.Get("/*", func(ctx fiber.Ctx) error {
 				for _, jc := range op.Cookies {
 					switch jc.Exp {
-					case "maxage0", "maxage-1", "maxagefar":
-						ma := map[string]string{"maxage0": "0", "maxage-1": "-1", "maxagefar": "3600"}[jc.Exp]
+					case "maxage0", "maxage-1", "maxagefar", "maxagehuge":
+						ma := map[string]string{"maxage0": "0", "maxage-1": "-1", "maxagefar": "3600", "maxagehuge": "10000000000"}[jc.Exp]
 						line := fmt.Sprintf("%s=%s; Max-Age=%s", jc.Key, jc.Val, ma)
 						if keyPath[jc.Key] != "" {
 							line += "; Path=" + keyPath[jc.Key]
@@ -643,7 +658,7 @@ func checkJar(c JarCase) vk.Verdict {
 				switch jc.Exp {
 				case "maxage0", "maxage-1":
 					jc.Exp = "past" // the server expired the cookie
-				case "maxagefar":
+				case "maxagefar", "maxagehuge":
 					jc.Exp = "far"
 				}
 				if jc.Exp == "short" {
@@ -800,7 +815,7 @@ func genJar(t *rapid.T) JarCase {
 				}
 				if op.Kind == "parse" && rapid.IntRange(0, 3).Draw(t, "maxage") == 0 {
 					// the other way servers spell lifetime and deletion (RFC 6265 4.1.2.2; it takes precedence over Expires)
-					jc.Exp = rapid.SampledFrom([]string{"maxage0", "maxage0", "maxagefar"}).Draw(t, "maxagekind")
+					jc.Exp = rapid.SampledFrom([]string{"maxage0", "maxage0", "maxagefar", "maxagehuge"}).Draw(t, "maxagekind")
 				}
 				op.Cookies = append(op.Cookies, jc)
 			}
